@@ -309,6 +309,9 @@ def run_impl_parallel(case_lines, tag, shards=12, release=False):
     return res
 
 
+MAX_HANGS = 4
+
+
 def run_impl(case_lines, tag, release=False, timeout_per_batch=600):
     """Run the cases on the real code. A crash of the harness process (abort, stack overflow,
     allocation failure) is an observation for the case that was running: `abort(<status>)`."""
@@ -345,6 +348,13 @@ def run_impl(case_lines, tag, release=False, timeout_per_batch=600):
         if cid is not None:
             res[cid] = "hang" if rc == -999 else "abort(%s)" % rc
         start = idx + 1
+        # code that hangs on a whole family of cases would cost the per-case limit for each of them: after a few
+        # hangs the rest of this batch is not run (each is reported as not run because of the earlier hangs)
+        nh = sum(1 for v in res.values() if v == "hang")
+        if nh >= MAX_HANGS:
+            for line in case_lines[start:]:
+                res.setdefault(line.split(" ", 1)[0], "hang (not run: %d earlier cases of this batch did not return)" % nh)
+            break
     return res
 
 
